@@ -536,7 +536,7 @@ func runC19(c *Ctx) {
 	n := c.Pick(2*len(c19Shapes), 8000)
 	c.Parallel(n, 8, func(i int) { c19RunName(c, i) })
 	c.Parallel(c.Pick(6, 300), 6, func(i int) { c19Expiry(c, i) })
-	c.Parallel(c.Pick(12, 600), 6, func(i int) { c19ForgedTwin(c, i) })
+	c.Parallel(c.Pick(22, 660), 6, func(i int) { c19ForgedTwin(c, i) })
 	c19DNSQueries.Lock()
 	r.Obs("dns_stub_queries", c19DNSQueries.n)
 	c19DNSQueries.Unlock()
@@ -614,7 +614,16 @@ func c19ForgedTwin(c *Ctx, idx int) {
 	// the genuine node certificate, and forgeries that copy everything a peer can see of it without the CA's key: subject,
 	// names, validity and SERIAL NUMBER, under an issuer with the bundle CA's distinguished name
 	serial := c19Serial()
-	gder, gkey := c19Leaf(c19LeafSpec{dnsNames: []string{host}, cn: "node", notBefore: now.Add(-time.Hour), notAfter: now.Add(24 * time.Hour), signer: pki.root, serial: serial})
+	gskid := make([]byte, 20)
+	rng.Read(gskid)
+	gder, gkey := c19Leaf(c19LeafSpec{dnsNames: []string{host}, cn: "node", notBefore: now.Add(-time.Hour), notAfter: now.Add(24 * time.Hour), signer: pki.root, serial: serial, skid: gskid})
+	// a second bundle, with a CA of its own, is loaded in this process and used for nothing: its CA is not this bundle's
+	pki2 := newC19PKI(now, fmt.Sprintf("t%d-second-bundle", idx))
+	if zr2, _, err := pki2.bundleZip(rng, "other."+host, meta.port); err == nil {
+		if _, err := astra.LoadBundleZip(zr2); err == nil {
+			r.Obs("second_bundles_loaded", 1)
+		}
+	}
 	genuine := tls.Certificate{Certificate: [][]byte{gder}, PrivateKey: gkey}
 	rootSubj := pki.root.cert.Subject
 	type forgery struct {
@@ -623,6 +632,8 @@ func c19ForgedTwin(c *Ctx, idx int) {
 	}
 	mk := func(name string, spec c19LeafSpec, extra ...[]byte) forgery {
 		spec.serial = serial
+		spec.skid = gskid // the key identifiers are extensions an issuer fills in as it likes
+		spec.akid = pki.root.cert.SubjectKeyId
 		spec.cn = "node"
 		spec.notBefore, spec.notAfter = now.Add(-time.Hour), now.Add(24*time.Hour)
 		der, key := c19Leaf(spec)
@@ -639,6 +650,8 @@ func c19ForgedTwin(c *Ctx, idx int) {
 		mk("self-signed+genuine-certificate-appended", c19LeafSpec{dnsNames: []string{host}}, gder),
 		mk("unrelated-ca+genuine-certificate-appended", c19LeafSpec{dnsNames: []string{host}, signer: pki.other}, gder),
 		mk("unrelated-ca+its-ca+genuine-certificate-appended", c19LeafSpec{dnsNames: []string{host}, signer: pki.other}, pki.other.der, gder),
+		mk("ca-of-another-bundle-loaded-in-this-process", c19LeafSpec{dnsNames: []string{host}, signer: pki2.root}),
+		mk("ca-of-another-bundle-loaded-in-this-process+its-ca", c19LeafSpec{dnsNames: []string{host}, signer: pki2.root}, pki2.root.der),
 	}
 	dial := func(ep proxycore.Endpoint, ver uint16, chain tls.Certificate) (bool, error, []*c19ConnObs, bool) {
 		sc := &c19ServerCase{version: ver, chain: chain}
